@@ -1,30 +1,72 @@
 #!/usr/bin/env python3
-"""Run the registered quick checks against the seeded mutants: apply each patch to /repo, run the
-check of the property it was written for (and optionally others), undo.  Results -> seeded/RESULTS.json"""
-import json, os, subprocess, sys, time
+"""Run the registered quick checks against the seeded changes.
+
+Each change is applied to a scratch git worktree of /repo (never to /repo itself) and the check of the
+property it was written for is run with REPO pointing there, from a scratch worktree of the committed
+/verif (so several can run side by side: each worker has its own Lean build directory and facts).
+Results -> seeded/RESULTS.json.   usage: run_seeded.py [-j N] [names or property prefixes...]
+/verif must be committed: the workers run HEAD."""
+import json, os, subprocess, sys, time, shutil, threading, queue
 VERIF = os.path.dirname(os.path.dirname(os.path.abspath(__file__)))
 sys.path.insert(0, os.path.join(VERIF, "bin"))
 from props import PROPS
-only = sys.argv[1:]
+args = sys.argv[1:]
+jobs = 4
+if args and args[0] == "-j":
+    jobs = int(args[1]); args = args[2:]
+only = args
+ROOT = "/tmp/seedrun"
 resf = os.path.join(VERIF, "seeded", "RESULTS.json")
 res = json.load(open(resf)) if os.path.exists(resf) else {}
-assert subprocess.run("git -C /repo status --porcelain", shell=True, capture_output=True, text=True).stdout.strip() == "", "/repo not clean"
-for m in sorted(os.listdir(os.path.join(VERIF, "seeded"))):
-    d = os.path.join(VERIF, "seeded", m)
-    if not os.path.isdir(d) or (only and m not in only and m[:3] not in only):
-        continue
-    prop = m[:3]
-    if prop not in PROPS:
-        res.setdefault(m, {})["status"] = "no check for %s yet" % prop
-        continue
-    subprocess.run(["git", "-C", "/repo", "apply", os.path.join(d, "patch.diff")], check=True)
-    try:
+names = [m for m in sorted(os.listdir(os.path.join(VERIF, "seeded")))
+         if os.path.isdir(os.path.join(VERIF, "seeded", m)) and (not only or m in only or m[:3] in only) and m[:3] in PROPS]
+def sh(cmd, **kw):
+    return subprocess.run(cmd, shell=True, stdout=subprocess.PIPE, stderr=subprocess.STDOUT, text=True, errors="replace", **kw)
+dirty = sh("git -C %s status --porcelain -- bin harness lean extract known_findings.json" % VERIF).stdout.strip()
+if dirty:
+    print("warning: uncommitted changes in /verif are NOT part of this run:\n" + dirty)
+shutil.rmtree(ROOT, ignore_errors=True)
+sh("git -C /repo worktree prune; git -C %s worktree prune" % VERIF)
+q = queue.Queue()
+for m in names:
+    q.put(m)
+lock = threading.Lock()
+def worker(k):
+    vw, rw = "%s/w%d/verif" % (ROOT, k), "%s/w%d/repo" % (ROOT, k)
+    os.makedirs("%s/w%d" % (ROOT, k), exist_ok=True)
+    sh("git -C %s worktree add --detach %s HEAD" % (VERIF, vw))
+    sh("git -C /repo worktree add --detach %s HEAD" % rw)
+    if os.path.isdir(os.path.join(VERIF, "lean", ".lake")):
+        shutil.copytree(os.path.join(VERIF, "lean", ".lake"), os.path.join(vw, "lean", ".lake"), symlinks=True)
+    env = dict(os.environ, REPO=rw)
+    sh("bin/setup.sh", cwd=vw, env=env)
+    while True:
+        try:
+            m = q.get_nowait()
+        except queue.Empty:
+            break
+        prop = m[:3]
+        sh("git checkout -q -- . && git clean -fdq", cwd=rw)
+        a = sh("git apply %s" % os.path.join(VERIF, "seeded", m, "patch.diff"), cwd=rw)
+        if a.returncode != 0:
+            with lock:
+                res[m] = {"check": prop, "status": "patch does not apply: " + a.stdout[:200]}
+                print(m, "PATCH-DOES-NOT-APPLY", flush=True)
+            continue
         t0 = time.time()
-        p = subprocess.run([os.path.join(VERIF, "bin", "check"), prop], cwd=VERIF, capture_output=True, text=True)
+        p = sh(os.path.join(vw, "bin", "check") + " " + prop, cwd=vw, env=env)
         lines = [l for l in p.stdout.split("\n") if l.startswith("VIOLATION")]
-        res[m] = {"check": prop, "exit": p.returncode, "caught": p.returncode == 1 and bool(lines),
-                  "violation_lines": [l[:300] for l in lines][:4], "wall_s": round(time.time() - t0, 1)}
-        print(m, "CAUGHT" if res[m]["caught"] else "MISSED", [l[:140] for l in lines][:2], flush=True)
-    finally:
-        subprocess.run("git -C /repo checkout -- . && git -C /repo clean -fdq", shell=True)
+        r = {"check": prop, "exit": p.returncode, "caught": p.returncode == 1 and bool(lines),
+             "violation_lines": [l.replace(vw, "/verif")[:300] for l in lines][:4], "wall_s": round(time.time() - t0, 1)}
+        with lock:
+            res[m] = r
+            print(m, "CAUGHT" if r["caught"] else "MISSED", [l[:140] for l in r["violation_lines"]][:2], flush=True)
+    sh("git -C %s worktree remove --force %s; git -C /repo worktree remove --force %s" % (VERIF, vw, rw))
+ts = [threading.Thread(target=worker, args=(k,)) for k in range(jobs)]
+for t in ts: t.start()
+for t in ts: t.join()
+shutil.rmtree(ROOT, ignore_errors=True)
+sh("git -C /repo worktree prune; git -C %s worktree prune" % VERIF)
 json.dump(res, open(resf, "w"), indent=1)
+missed = [m for m in names if not res.get(m, {}).get("caught")]
+print("ran %d, missed %d: %s" % (len(names), len(missed), " ".join(missed)))
